@@ -171,7 +171,7 @@ def run_l2(tier, select=None, baseline=None, log=print, max_procs=None):
     """Run (or fetch from cache) every L2 harness selected by `select(h)`.
     Returns (harness metadata list, results by harness name, stats)."""
     t_start = time.time()
-    hs = K.plan_l2(tier, baseline)
+    hs = K.plan_l2(tier, baseline) + K.plan_l1()
     if select:
         hs = [h for h in hs if select(h)]
     fw = K.framework_hash()
@@ -183,7 +183,7 @@ def run_l2(tier, select=None, baseline=None, log=print, max_procs=None):
     for h in hs:
         f = h["file"]
         if f not in file_sha:
-            file_sha[f] = X.sha(X.whole_file(f))
+            file_sha[f] = X.sha(X.whole_file(f)) if f.startswith("src/instructions/") else "common"
         h["key"] = X.sha("l2", fw, common, file_sha[f], h["decl"], kv, " ".join(KANI_FLAGS), tier)
         c = cache_get(h["key"])
         if c is not None:
